@@ -1,0 +1,69 @@
+// Copyright 2024 Dimitrij Drus <dadrus@gmx.de>
+//
+// Licensed under the Apache License, Version 2.0 (the "License");
+// you may not use this file except in compliance with the License.
+// You may obtain a copy of the License at
+//
+//      http://www.apache.org/licenses/LICENSE-2.0
+//
+// Unless required by applicable law or agreed to in writing, software
+// distributed under the License is distributed on an "AS IS" BASIS,
+// WITHOUT WARRANTIES OR CONDITIONS OF ANY KIND, either express or implied.
+// See the License for the specific language governing permissions and
+// limitations under the License.
+//
+// SPDX-License-Identifier: Apache-2.0
+
+package rules
+
+import "strings"
+
+// normalizeUnreservedEscapes decodes the percent-encoded octets of the given path, which correspond to
+// unreserved characters (ALPHA / DIGIT / "-" / "." / "_" / "~"). According to RFC 3986, section 2.3 and
+// section 6.2.2.2, such URIs are equivalent, so /%61dm/x and /adm/x have to match the same rule. All other
+// percent-encoded octets, like encoded slashes, are left untouched.
+func normalizeUnreservedEscapes(path string) string {
+	if !strings.Contains(path, "%") {
+		return path
+	}
+
+	var builder strings.Builder
+
+	builder.Grow(len(path))
+
+	for idx := 0; idx < len(path); idx++ {
+		if path[idx] == '%' && idx+2 < len(path) && isHex(path[idx+1]) && isHex(path[idx+2]) {
+			if char := unhex(path[idx+1])<<4 | unhex(path[idx+2]); isUnreserved(char) { //nolint:mnd
+				builder.WriteByte(char)
+
+				idx += 2
+
+				continue
+			}
+		}
+
+		builder.WriteByte(path[idx])
+	}
+
+	return builder.String()
+}
+
+func isUnreserved(char byte) bool {
+	return (char >= 'a' && char <= 'z') || (char >= 'A' && char <= 'Z') || (char >= '0' && char <= '9') ||
+		char == '-' || char == '.' || char == '_' || char == '~'
+}
+
+func isHex(char byte) bool {
+	return (char >= '0' && char <= '9') || (char >= 'a' && char <= 'f') || (char >= 'A' && char <= 'F')
+}
+
+func unhex(char byte) byte {
+	switch {
+	case char >= '0' && char <= '9':
+		return char - '0'
+	case char >= 'a' && char <= 'f':
+		return char - 'a' + 10 //nolint:mnd
+	default:
+		return char - 'A' + 10 //nolint:mnd
+	}
+}
